@@ -9,6 +9,7 @@
 package main
 
 import (
+	"os/exec"
 	ctx509 "github.com/google/certificate-transparency-go/x509"
 	"encoding/asn1"
 	"crawshaw.io/sqlite"
@@ -79,6 +80,7 @@ type logInst struct {
 	name    string
 	pool    int
 	cache   string
+	lastAck map[string][2]int64 // C07.same-sct: what this instance last acknowledged for each dedup identity
 }
 
 type driver struct {
@@ -463,6 +465,18 @@ func (d *driver) submitOpt(li *logInst, e *ctlog.PendingLogEntry, low bool, doSy
 			wt.line = fmt.Sprintf("ack %d %d %d", wid, le.LeafIndex, le.Timestamp)
 			if !li.in.dead {
 				w.mon.ack(w, e, le.LeafIndex, le.Timestamp)
+				// C07: as long as this instance runs on its cache (no loss, no rollback: those start a new
+				// instance or reset the map), an entry it acknowledged is always acknowledged identically
+				k := fmt.Sprintf("%v|%x|%x", e.IsPrecert, e.IssuerKeyHash, e.Certificate)
+				w.mon.checks["C07.same-sct"]++
+				if prev, seen := li.lastAck[k]; seen && (prev[0] != le.LeafIndex || prev[1] != le.Timestamp) {
+					w.mon.fail("C07 instance %d acknowledged an entry with (index %d, timestamp %d) and now, with no cache loss in between, acknowledges the same entry with (index %d, timestamp %d)",
+						li.in.id, prev[0], prev[1], le.LeafIndex, le.Timestamp)
+				}
+				if li.lastAck == nil {
+					li.lastAck = map[string][2]int64{}
+				}
+				li.lastAck[k] = [2]int64{le.LeafIndex, le.Timestamp}
 			}
 		}
 		w.cond.Broadcast()
@@ -739,7 +753,7 @@ func main() {
 	if err != nil {
 		panic(err)
 	}
-	defer os.RemoveAll(dir)
+	defer removeTree(dir)
 	var all bytes.Buffer
 	failures := 0
 	stats := map[string]int{}
@@ -892,4 +906,13 @@ func (d *driver) strandedCheck() {
 			d.w.mon.fail("C17 submitter %d of instance %d was left without an outcome (sequencer running: %v) after two further fault-free rounds", x.wid, x.inst.in.id, x.inst.running)
 		}
 	}
+}
+
+// removeTree: the real LocalBackend (-real) marks immutable objects with the immutable file flag
+// (the harness runs as root, so the flag sticks); clear it before removing the scratch directory
+func removeTree(dir string) {
+	if realBackends {
+		exec.Command("chattr", "-R", "-i", dir).Run()
+	}
+	os.RemoveAll(dir)
 }
